@@ -218,6 +218,7 @@ PROPS["C02"] = {
     "theorems": ["C02_block_size_codes", "C02_sample_rate_codes", "C02_number_roundtrip", "C02_number_defined"],
     "streams": "ENC+CNT", "rule": "ENC+CNT",
     "oracle": lambda pid, res, driver: enc_oracle(pid, res, driver),
+    "search": lambda pid, res, hb: table_search(pid, res, hb),
     "assumptions": ["whole-stream strictness (sync, reserved bits, CRCs, padding, subframe limits, frame numbering, consistency with "
                     "STREAMINFO) is decided per run by the extracted strict validator on the implementation's bytes",
                     "code tables come from the compiled crate (GenTables.v), so the sweeps range over the implementation's outputs"],
@@ -253,6 +254,10 @@ def fail_oracle(pid, res, driver):
                 exp = "err-sink" if k < total else "ok"
                 if t[1] != exp or acc != min(k, total):
                     findings.append({"case": c[:3000], "impl": o[:200], "why": "sink failing at call %d of %d: expected %s with %d accepted calls" % (k, total, exp, min(k, total))})
+                m2 = re.search(r"ref=(\S+) retry=(\S+)", o)
+                if m2 and m2.group(1) != m2.group(2):
+                    findings.append({"case": c[:3000], "impl": o[:300], "why": "after the failed write the same stream, written again on the same thread into a "
+                                     "healthy sink, gives different bytes (%s) than before the failure (%s)" % (m2.group(2), m2.group(1))})
     return findings
 
 
@@ -266,7 +271,8 @@ PROPS["C12"] = {
     "rule": "FAIL: streams from the ENC generator (<= 1500 samples; all subframe kinds; frames precomputed (multi-thread) or not) "
             "written to a user sink implementing only the required methods that fails at call k, k absolute 0..59 or at a "
             "per-mille position of the total call count incl. exactly the end. Observable: verdict (ok / err-sink / panic), number "
-            "and digest of accepted calls, number of accepted bits. Non-trivial = failure after at least one accepted call.",
+            "and digest of accepted calls, number of accepted bits; the stream is also written to a healthy sink before and after the failed write "
+            "on the same thread (bytes must be equal). Non-trivial = failure after at least one accepted call.",
     "oracle": fail_oracle,
     "assumptions": ["the operation sequence a component sends to the caller's sink (stream_ops) is part of the hand-written model, tied by "
                     "the call digest in the FAIL stream"],
@@ -344,6 +350,104 @@ def cfg_oracle(pid, res, driver):
                     "accepted" if verdict == "ok" else "rejected/crashed on", "outside" if not ok else "inside")})
     if pid == "C07":
         findings += enc_oracle("C07", res, driver)
+    if pid == "C19" and data:
+        findings += doc_default_oracle(data)
+    return findings
+
+
+def parse_doc_text(s):
+    """{k:v,...} with v = b0|b1 | i<int> | f<bits> | s<name> | {..}  ->  nested dict"""
+    pos = [0]
+
+    def val():
+        if s[pos[0]] == "{":
+            pos[0] += 1
+            d = {}
+            while s[pos[0]] != "}":
+                j = s.index(":", pos[0])
+                k = s[pos[0]:j]
+                pos[0] = j + 1
+                d[k] = val()
+                if s[pos[0]] == ",":
+                    pos[0] += 1
+            pos[0] += 1
+            return d
+        j = pos[0]
+        while j < len(s) and s[j] not in ",}":
+            j += 1
+        tok = s[pos[0]:j]
+        pos[0] = j
+        return tok
+    return val()
+
+
+def generated_defaults():
+    txt = open(os.path.join(fv.COQ, "theories", "Generated.v")).read()
+    d = {}
+    for name, key in (("d_bs", "bs"), ("d_fo", "fo"), ("d_lo", "lo"), ("d_qp", "qp"), ("d_ma", "ma"), ("d_mp", "mp")):
+        d[key] = re.search(r"Definition %s : N := (\d+)\." % name, txt).group(1)
+    for name, key in (("d_mt", "mt"), ("d_ls", "ls"), ("d_rs", "rs"), ("d_ms", "ms"), ("d_uc", "uc"), ("d_uf", "uf"), ("d_ul", "ul"), ("d_dm", "dm")):
+        d[key] = "1" if re.search(r"Definition %s : bool := (\w+)\." % name, txt).group(1) == "true" else "0"
+    m = re.search(r"Definition d_order_sel : option N := (None|Some (\d+))\.", txt)
+    d["os"] = "bc" if m.group(1) == "None" else m.group(2)
+    m = re.search(r"Definition d_window : option N := (None|Some (\d+))\.", txt)
+    d["win"] = "r" if m.group(1) == "None" else "t" + m.group(2)
+    d["partitions"] = re.search(r"Definition c_DEFAULT_ENTROPY_ESTIMATOR_PARTITIONS : N := (\d+)\.", txt).group(1)
+    return d
+
+
+def doc_default_oracle(data):
+    """C19 on the implementation: a key omitted from an accepted document takes the documented default
+    (Encoder::default() as dumped from the compiled crate), a key that is present keeps its value."""
+    findings = []
+    dflt = generated_defaults()
+    paths = {"bs": ["block_size"], "mt": ["multithread"], "ls": ["stereo_coding", "use_leftside"], "rs": ["stereo_coding", "use_rightside"],
+             "ms": ["stereo_coding", "use_midside"], "uc": ["subframe_coding", "use_constant"], "uf": ["subframe_coding", "use_fixed"],
+             "ul": ["subframe_coding", "use_lpc"], "fo": ["subframe_coding", "fixed", "max_order"], "lo": ["subframe_coding", "qlpc", "lpc_order"],
+             "qp": ["subframe_coding", "qlpc", "quant_precision"], "dm": ["subframe_coding", "qlpc", "use_direct_mse"],
+             "ma": ["subframe_coding", "qlpc", "mae_optimization_steps"], "mp": ["subframe_coding", "prc", "max_parameter"]}
+
+    def get(doc, path):
+        for k in path:
+            if not isinstance(doc, dict) or k not in doc:
+                return None
+            doc = doc[k]
+        return doc
+    for c, o in zip(data["cases"], data["impl"].get("debug", [])):
+        t = c.split(" ", 3)
+        ot = o.split(" ")
+        if t[2] != "P" or len(ot) < 3 or ot[1] != "ok":
+            continue
+        try:
+            doc = parse_doc_text(t[3])
+            got = dict(kv.split("=") for kv in ot[2].split(";"))
+        except Exception:
+            continue
+        exp = {}
+        for key, path in paths.items():
+            v = get(doc, path)
+            exp[key] = dflt[key] if v is None else (v[1:] if v[0] in "bi" else None)
+        osel = get(doc, ["subframe_coding", "fixed", "order_sel"])
+        if osel is None:
+            exp["os"] = dflt["os"]
+        elif isinstance(osel, dict) and osel.get("type") == "sBitCount":
+            exp["os"] = "bc"
+        elif isinstance(osel, dict) and osel.get("type") == "sApproxEnt":
+            pv = osel.get("partitions")
+            exp["os"] = dflt["partitions"] if pv is None else (pv[1:] if pv[0] == "i" else None)
+        win = get(doc, ["subframe_coding", "qlpc", "window"])
+        if win is None:
+            exp["win"] = dflt["win"]
+        elif isinstance(win, dict) and win.get("type") == "sRectangle":
+            exp["win"] = "r"
+        elif isinstance(win, dict) and win.get("type") == "sTukey" and str(win.get("alpha", ""))[:1] == "f":
+            exp["win"] = "t" + win["alpha"][1:]
+        for key, ev in exp.items():
+            if ev is not None and got.get(key) != ev:
+                findings.append({"case": c[:3000], "impl": o[:300],
+                                 "why": "field %s of the parsed configuration is %s; the document %s, so it must be %s" % (
+                                     key, got.get(key), "omits it (documented default applies)" if get(doc, paths.get(key, ["?"])) is None else "states it", ev)})
+                break
     return findings
 
 
@@ -712,6 +816,53 @@ PROPS["C10"] = {
 }
 
 
+def table_search(pid, res, harness_bin):
+    """C02: when the sweep over the implementation's code tables no longer checks, find the block sizes / sample
+    rates whose code does not mean (RFC 9639 9.1.1/9.1.2) the value it was asked for, and build inputs that use them."""
+    out = fv.sh([harness_bin, "dump"], timeout=600).stdout
+    cfgd = re.search(r"^cfgdefault (\S+)", out, re.M).group(1)
+    cfgd = re.sub(r"mt=1", "mt=0", cfgd)
+    bad_blocks, bad_rates = [], []
+    for line in out.split("\n"):
+        t = line.split()
+        if len(t) > 2 and t[0] == "table" and t[1] == "block_size":
+            for i, e in enumerate(t[2:]):
+                n, e = i + 1, int(e)
+                tag, xb, xv = e >> 24, (e >> 16) & 255, e & 65535
+                mean = None
+                if tag == 1: mean = 192
+                elif 2 <= tag <= 5: mean = 576 << (tag - 2)
+                elif tag == 6 and xb == 8: mean = xv + 1
+                elif tag == 7 and xb == 16: mean = xv + 1
+                elif 8 <= tag <= 15: mean = 256 << (tag - 8)
+                if mean != n:
+                    bad_blocks.append(n)
+        if len(t) > 2 and t[0] == "table" and t[1] == "sample_rate":
+            for i, e in enumerate(t[2:]):
+                f, e = i + 1, int(e)
+                tag, xb, xv = e >> 24, (e >> 16) & 255, e & 65535
+                std = {1: 88200, 2: 176400, 3: 192000, 4: 8000, 5: 16000, 6: 22050, 7: 24000, 8: 32000, 9: 44100, 10: 48000, 11: 96000}
+                mean = None
+                if tag == 0: mean = f          # "from STREAMINFO"
+                elif tag in std: mean = std[tag]
+                elif tag == 12 and xb == 8: mean = xv * 1000
+                elif tag == 13 and xb == 16: mean = xv
+                elif tag == 14 and xb == 16: mean = xv * 10
+                if mean != f:
+                    bad_rates.append(f)
+    cases = []
+    ramp = lambda n: ",".join(str(((7 * k) % 201) - 100) for k in range(n))
+    for j, n in enumerate(bad_blocks[:6]):
+        if n >= 32:
+            cases.append("ENC tb%d %s 44100 1 16 %d %s" % (j, re.sub(r"bs=\d+", "bs=%d" % n, cfgd), n, ramp(n + 7)))
+        else:
+            cases.append("ENC tb%d %s 44100 1 16 64 %s" % (j, re.sub(r"bs=\d+", "bs=64", cfgd), ramp(64 + n)))
+    for j, f in enumerate(bad_rates[:6]):
+        cases.append("ENC tr%d %s %d 1 16 64 %s" % (j, re.sub(r"bs=\d+", "bs=64", cfgd), f, ramp(70)))
+    res.extra["table_mismatches"] = {"block_sizes": bad_blocks[:20], "sample_rates": bad_rates[:20]}
+    return {"ENC": cases}
+
+
 def feat_oracle(pid, res, driver):
     """Cross-build comparison: outputs and estimator (oracle) values of every feature build are identical."""
     findings = []
@@ -805,6 +956,23 @@ def check_coq(pid, spec, res):
     return True
 
 
+def coqchk(pid, spec, res):
+    """Thorough tier: re-check the compiled property file and everything it depends on with the independent checker."""
+    mod = "FV." + spec["coq"].replace("theories/", "").replace(".v", "").replace("/", ".")
+    p = fv.sh(["timeout", "3000", "coqchk", "-o", "-silent", "-Q", "theories", "FV", mod], cwd=fv.COQ, check=False, timeout=3100)
+    out = p.stdout
+    res.extra["coqchk_cmd"] = "cd /verif/coq && coqchk -o -silent -Q theories FV " + mod
+    if p.returncode == 124:
+        res.extra["coqchk"] = "timeout after 3000 s (not a verdict)"
+        return
+    m = re.search(r"\* Axioms:\s*(.*?)(?:\n\s*\*|\Z)", out, re.S)
+    axioms = m.group(1).strip() if m else "?"
+    res.extra["coqchk"] = {"returncode": p.returncode, "axioms": axioms[:500]}
+    if p.returncode != 0 or axioms != "<none>":
+        res.violations.append({"kind": "coqchk", "detail": out[-2000:], "has_input": False,
+                               "no_longer_checks": "coqchk of %s: rc=%d axioms=%s" % (mod, p.returncode, axioms[:200])})
+
+
 def run_streams(pid, spec, tier, seed, res, replay_cases=None):
     """Correspondence: implementation vs extracted model on the same cases."""
     driver = fv.build_driver()
@@ -826,6 +994,8 @@ def run_streams(pid, spec, tier, seed, res, replay_cases=None):
             genv.update(st.get("thorough_env", {}))
         cases = list(replay_cases) if replay_cases is not None else \
             fv.corpus_cases(st["name"]) + fv.gen_cases(bins["debug"], st["name"], seed, n, env=genv)
+        if replay_cases is None:
+            cases = getattr(res, "extra_cases", {}).get(st["name"], []) + cases
         cases = [c for c in cases if c.split(" ", 1)[0] == st["name"]]
         if not cases:
             continue
@@ -915,6 +1085,15 @@ def run_check(pid, spec, tier, seed, replay):
     translate.regenerate(dbg)
     # (3) proofs
     proofs_ok = check_coq(pid, spec, res)
+    if not proofs_ok and spec.get("search"):
+        # a proof obligation broke: derive targeted cases from what changed and let the oracle look at them
+        try:
+            res.extra_cases = spec["search"](pid, res, dbg)
+            res.extra["targeted_cases"] = {k: len(v) for k, v in res.extra_cases.items()}
+        except Exception as e:   # the search is best effort
+            res.extra["targeted_cases_error"] = str(e)[:300]
+    if proofs_ok and tier == "thorough" and not replay:
+        coqchk(pid, spec, res)
     # (4)+(5) correspondence
     replay_cases = None
     if replay:
@@ -1050,8 +1229,9 @@ def enc_oracle(pid, res, driver, stream="ENC"):
         checked += 1
         n = len(pc["samples"]) // pc["ch"]
         if len(dt) < 2 or dt[1] != "ok":
-            if pid in ("C01", "C02", "C04"):
-                findings.append(dict(short, why="the independent strict decoder (extracted Flac.decode_stream) rejects the emitted stream: %s" % d[:80]))
+            if pid in ("C01", "C02", "C03", "C04"):
+                findings.append(dict(short, why="the independent strict decoder (extracted Flac.decode_stream), which cross-checks STREAMINFO against "
+                                                "the decoded frames, rejects the emitted stream: %s" % d[:80]))
             continue
         f = dict(kv.split("=") for kv in dt[2:12])
         samples = [] if dt[12] == "-" else [int(x) for x in dt[12].split(",")]
